@@ -47,7 +47,7 @@ def has_nonempty(e, s):
     return False
 
 
-def prune_state(e, s, under, arrays=True, ceil=False):
+def prune_state(e, s, under, arrays=True, ceil=False, bare=False):
     """The documented loss, computed independently of set_flat: below a pruning sequence every
     member all of whose flattened values are '' is dropped (trailing ones only for a non-pruning
     list nested below a pruning one, interior ones come back blank); pruning Arrays drop ''
@@ -64,7 +64,7 @@ def prune_state(e, s, under, arrays=True, ceil=False):
             keep = [m for m in ms if has_nonempty(m, s["member"])]
             if ceil:
                 keep = keep[: s["max"]]        # maximum_set_flat_members: the first `max` surviving indexes
-            return {"list": [prune_state(m, s["member"], True, arrays, ceil) for m in keep]}
+            return {"list": [prune_state(m, s["member"], True, arrays, ceil, True) for m in keep]}
         if ceil and not under:
             ms = ms[: s["max"]]                # … or the indexes below `max`
         if under:
@@ -74,14 +74,17 @@ def prune_state(e, s, under, arrays=True, ceil=False):
                     last = i
             out = []
             for m in ms[: last + 1]:
-                out.append(prune_state(m, s["member"], True, arrays, ceil) if has_nonempty(m, s["member"]) else blank_state(s["member"]))
+                out.append(prune_state(m, s["member"], True, arrays, ceil, True) if has_nonempty(m, s["member"]) else blank_state(s["member"]))
             if ceil:
                 out = out[: s["max"]]          # slots run up to the last surviving index, capped by `max`
             return {"list": out}
-        return {"list": [prune_state(m, s["member"], False, arrays, ceil) for m in ms]}
+        return {"list": [prune_state(m, s["member"], False, arrays, ceil, True) for m in ms]}
     if t == "array":
         ms = e["array"]
-        if (s["prune"] and arrays) or under:
+        # an anonymous Array of anonymous members (reached through a bare list index) is handed the key
+        # None, for which its own prune filter does not fire (Lean spec: arrayPrunes)
+        own = s["prune"] and not (bare and s["name"] is None and s["member"]["name"] is None)
+        if (own and arrays) or under:
             ms = [m for m in ms if has_nonempty(m, s["member"])]
         return {"array": ms}
     return e
